@@ -9,6 +9,14 @@ programs of backend functions whose VALUES the Coq model computes itself (Fluent
 Internal arrays have 0-3 dimensions (square, non-square, size-1 axes); every axis-like argument (stack/flatten
 axis, expand internal dimension, positions taken, node axis of expand/transform) runs over its whole valid
 range from the front AND from the back, the internal dimension of xarray payloads also by name.
+ELEMENT TYPES: the source arrays are not only float64.  Half of the programs / sessions, most of the batching sweep
+and the stream semt declare an element type for their sources (bool, int8 ... uint64, float32, float64), a value regime
+(small; near the end of the type's range, so that a sum or product of two elements leaves it; 10..40; signed) and a
+memory layout (C, Fortran, strided view, read-only).  The NumPy reference then computes on the stacked array OF THAT
+TYPE: integer and boolean results must be the same numbers exactly (a count is not a mask, a sum that NumPy accumulates
+in int64 must not have wrapped at 127), floating-point results agree within the rounding of their precision, and the
+element type of every cell must be NumPy's.  The graph interpreter also checks that no payload function writes into
+one of its arguments (a node's value is shared by all its consumers).
 Before each case the mutable default arguments of the modules under test are put back to their import-time
 content, so that a stored case replays in a fresh process; state carried from call to call is looked for
 inside a case.
@@ -33,7 +41,10 @@ are compared with the real Action.nodes; for programs that raise, the exception 
 In a session every result is compared (check_session).  For programs made of backend functions the
 model also computes the VALUE of every cell (Fluent/ActionSem.v over Backends/Ops.v, exact integers) and
 it is compared with what evaluating the real graph gave, or with the first cell that raises and its
-exception class (check_values)."""
+exception class (check_values).  Stream semt does the same WITH element types (Fluent/ActionSemT.v over
+Backends/Dtype.v: common type of the arguments, accumulator type of sum / prod, weak Python scalars, results stored
+with wrap-around): element type, shape and exact value (floats as num/den) of every cell (check_values_t); where
+the harness can vouch that nothing was rounded the model has to decide every cell."""
 import functools
 import hashlib
 import json
@@ -47,9 +58,12 @@ TRUSTED = [
     "harness/c13.py: NumPy reference semantics of each fluent operation on stacked arrays (the property's right-hand side), the graph interpreter, Python object -> node-table numbering",
     "harness/c13.py: reset of the mutable default arguments of fluent/backends functions before each case (a case = a fresh process); flat row-major data -> nested arrays (Fluent/ActionSemCheck.v ti/unflat)",
     "floating point: values are integer-valued float64 arrays; mean/std/divide/pow compared with rtol 1e-9 / atol 1e-6 (rounding is outside the model)",
+    "harness/c13.py: sources with a declared element type -- integer / boolean results compared exactly, floating-point results with rtol 1e-9 (float32: 1e-4) and an absolute tolerance of 1e-7 (float32: 2e-3) times the largest magnitude met on the way (cancellation in the batched std; a NaN from the root of a variance that rounding left below zero is accepted where the expected std is within that tolerance of 0, and nothing is derived from a batched std); element types compared by kind and size; programs NumPy itself refuses (boolean subtract / negative, a Python int outside an unsigned type) count as malformed; a join of results of different element types, a batched std whose sums of squares are not exact and a batched mean of 64-bit values near the end of the range are not generated (the rewrite through sums then measures floating-point cancellation / 64-bit wrap-around of np.sum itself)",
+    "harness/c13.py: typed_values -> Coq (dtype, shape, num/den) literals; `exact` flag (every value met while evaluating the graph is an integer / boolean, or a floating-point array of integers below 2^22 / 2^50) under which the model may not stay silent",
 ]
 ASSUMPTIONS = [
     "values (C13_take_value ... C13_expand_then_stack_values): the callables the fluent layer itself puts into nodes (take, stack, concat, sum/prod/min/max/mean, add/subtract/multiply/divide/pow, trivial) are interpreted by the exact tensor semantics of Backends/Tensor.v + Ops.v on numpy payloads; this interpretation is compared with the evaluation of the real graph on every run (stream sem: integer data, |v| < 2^52, exact) -- user callables, xarray payloads and non-integer results are compared with NumPy by the oracle only",
+    "element types (C13_integer_sum_prod_obey_batch_law ... C13_pairwise_fold_is_not_the_reduction): NumPy's promotion, accumulator and result types are those of Backends/Dtype.v (C15's model, imported read-only; compared with NumPy by C15 and, through stream semt, here); integer results are stored with two's-complement wrap-around, floating-point results must be exact values of their type or the model is silent (Err rounding-outside-model); a Python int operand takes the array's type (int64 beside booleans), a Python float makes integers float64 (NumPy 2 / NEP 50); the batch law for integer sum / prod is proved pointwise for arrays of ONE element type d (elements of type d or acc_dtype d); mixed signed/unsigned 64-bit operands (NumPy answers float64) are outside it",
     "a call depends only on its instruction and operands (C13_call_ignores_other_results is a theorem of the functional model); that the implementation has no call-to-call state is what the session / pair streams test, it is not proved about Python",
     "Section hypothesis batch_law (ActionProofs): for a callable marked batchable, f applied to the per-batch results (singleton batches passed through, at least two batches) equals f applied to all arguments -- proved for the backends' marked functions by C15; instantiated here on a field for sum (Batch.sum_batch_law)",
     "mean/std over an abstract field with Leibniz equality (field_theory as hypothesis; for std additionally: every count n > 0 is non-zero in the field, sqrt uninterpreted, the array does not use the helper name **datatype**); arrays are treated pointwise; instantiated on Qc",
@@ -60,7 +74,7 @@ ASSUMPTIONS = [
 ]
 
 HEADER = """From Coq Require Import List String Bool Arith NArith ZArith.
-From EKW Require Import Fluent.XArr Fluent.Action Fluent.ActionCheck Fluent.ActionSem Fluent.ActionSemCheck.
+From EKW Require Import Fluent.XArr Fluent.Action Fluent.ActionCheck Fluent.ActionSem Fluent.ActionSemT Fluent.ActionSemCheck.
 Import ListNotations.
 Open Scope string_scope.
 Open Scope list_scope.
@@ -118,23 +132,97 @@ REDF = {"r_wsum": r_wsum, "r_ends": r_ends, "r_bsum": r_bsum, "r_bmax": r_bmax}
 TF = {"t_scale": t_scale}
 USER = {**MAPF, **REDF, **TF}
 NAMED = ["sum", "prod", "min", "max"]
-BINOPS = {"add": np.add, "subtract": np.subtract, "multiply": np.multiply, "divide": np.divide, "pow": np.power}
+def _pow(a, b):          # what a NumPy user writes for Action.power: a ** b (for a boolean array and the exponent 2 NOT np.power(a, 2))
+    return a ** b
 
 
-def src_value(k, ishape, seed):
+BINOPS = {"add": np.add, "subtract": np.subtract, "multiply": np.multiply, "divide": np.divide, "pow": _pow}
+
+
+# Element types of the source arrays.  A case without "dt" is the first generation of this harness: float64
+# arrays of small positive integers.  With "dt" the sources are arrays of that NumPy dtype; "vr" is the value
+# regime: small (1..9; bool: a mask), edge (near the upper end of the dtype's range: the sum or product of two
+# elements already leaves the range, so an operation that does not accumulate the way NumPy does wraps around),
+# mid (10..40: fits every dtype, squares leave int8), signed (-9..9 without 0).  "lay" is how the array sits in
+# memory: c (fresh C-ordered), f (Fortran order), view (a strided view into a larger buffer), ro (read-only).
+DTYPES = ["bool", "int8", "uint8", "int16", "uint16", "int32", "uint32", "int64", "uint64", "float32", "float64"]
+DT_WEIGHTED = ["bool"] * 3 + ["int8"] * 3 + ["uint8"] * 2 + ["int16", "uint16", "int32", "int32", "uint32", "int64", "uint64",
+                                                         "float32", "float32", "float64"]
+LAYOUTS = ["c", "c", "f", "view", "ro"]
+
+
+def regimes_of(dt):
+    if dt == "bool":
+        return ["small"]
+    if dt.startswith("float"):
+        return ["small", "edge", "signed"]
+    if dt.startswith("uint"):
+        return ["small", "edge", "edge", "mid"]
+    return ["small", "edge", "edge", "mid", "signed"]
+
+
+def value_range(dt, vr):
+    """inclusive bounds of the source values"""
+    if dt == "bool":
+        return 0, 1
+    if vr == "mid":
+        return 10, 40
+    if vr == "signed":
+        return -9, 9
+    if vr == "edge":
+        if dt.startswith("float"):
+            return 100, 999
+        hi = int(np.iinfo(dt).max)
+        return hi // 3 + 1, hi
+    return 1, 9
+
+
+def src_value(k, ishape, seed, dt=None, vr=None, lay=None):
     rs = np.random.RandomState((seed * 7919 + k * 104729) % (2**31))
-    return (rs.randint(0, 5, size=tuple(ishape)) + (k % 5) + 1).astype(np.float64)   # 1..9: divisors never 0
+    if dt is None:
+        return (rs.randint(0, 5, size=tuple(ishape)) + (k % 5) + 1).astype(np.float64)   # 1..9: divisors never 0
+    lo, hi = value_range(dt, vr)
+    if dt == "bool":
+        v = rs.random_sample(size=tuple(ishape)) < 0.6
+    else:
+        u = rs.random_sample(size=tuple(ishape))
+        # exact integer arithmetic: float64 has too few digits for the 64-bit ranges
+        flat = [lo + int(x * (hi - lo + 1)) for x in np.asarray(u).reshape(-1).tolist()]
+        flat = [min(max(x, lo), hi) for x in flat]
+        if vr == "signed":
+            flat = [x if x else (k % 9) + 1 for x in flat]          # divisors never 0
+        v = np.array(flat, dtype=dt).reshape(tuple(ishape))
+    return lay_out(v, lay)
 
 
-def make_src(k, ishape, seed, kind):
+def lay_out(v, lay):
+    if lay == "f" and v.ndim >= 2:
+        return np.asfortranarray(v)
+    if lay == "view" and v.ndim >= 1:
+        big = np.zeros(tuple(2 * n for n in v.shape), dtype=v.dtype)
+        sl = tuple(slice(None, None, 2) for _ in v.shape)
+        big[sl] = v
+        return big[sl]
+    if lay == "ro":
+        v = v.copy()
+        v.setflags(write=False)
+    return v
+
+
+def src_opts(ins):
+    return ins.get("dt"), ins.get("vr"), ins.get("lay")
+
+
+def make_src(k, ishape, seed, kind, dt=None, vr=None, lay=None):
     def f():
-        v = src_value(k, ishape, seed)
+        v = src_value(k, ishape, seed, dt, vr, lay)
         if kind == "xarray":
             import xarray as xr
             return xr.DataArray(v, dims=[f"i{j}" for j in range(v.ndim)])
         return v
     f.__name__ = f"src{k}"
     f._src = k
+    f._opts = (tuple(ishape), seed, dt, vr, lay)
     return f
 
 
@@ -146,6 +234,9 @@ class Ref:
         self.dims, self.coords, self.scal, self.data = list(dims), dict(coords), dict(scal), data
         self.indexed = dict(indexed) if indexed is not None else {d: True for d in dims}
         self.inames = None        # names of the internal dimensions (xarray payloads); set by ref_step
+        self.mixed = False        # cells of more than one element type (one round of batching with a batch of one)
+        self.typed = False        # the sources declare an element type: dtype and values are compared dtype-aware
+        self.scale = 0.0          # largest magnitude met on the way to this result (absolute tolerance of float results)
 
     @property
     def nn(self):
@@ -237,7 +328,22 @@ def ref_reduce(r, fname, kw, d, keep):
 def ref_step(env, ins, seed, kind):
     """reference result of one instruction; also tracks the NAMES of the internal dimensions (the
     xarray payloads are addressed by name as well as by position)"""
-    r = ref_step0(env, ins, seed, kind)
+    typed = ins.get("dt") is not None if ins["op"] == "source" else any(env[ins[x]].typed for x in ("a", "b") if x in ins)
+    if typed:
+        # arithmetic NumPy itself refuses for the element type (boolean subtract / negative, a Python integer that does
+        # not fit the unsigned type) is no program of the fragment; the implementation refuses it when the graph runs
+        try:
+            with np.errstate(all="ignore"):
+                r = ref_step0(env, ins, seed, kind)
+        except (TypeError, OverflowError):
+            raise Invalid()
+    else:
+        r = ref_step0(env, ins, seed, kind)
+    r.typed = typed
+    if typed:
+        mags = np.abs(np.asarray(r.data, dtype=float))
+        mags = mags[np.isfinite(mags)]
+        r.scale = max([float(mags.max()) if mags.size else 0.0] + [env[ins[x]].scale for x in ("a", "b") if x in ins])
     if ins["op"] == "source":
         r.inames = [f"i{j}" for j in range(len(ins["ishape"]))]
     elif r.inames is None:
@@ -265,9 +371,9 @@ def ref_step0(env, ins, seed, kind):
     if op == "source":
         dims = [d for d, _ in ins["dims"]]
         shape = [len(c) for _, c in ins["dims"]]
-        data = np.empty(tuple(shape) + tuple(ins["ishape"]))
+        data = np.empty(tuple(shape) + tuple(ins["ishape"]), dtype=ins.get("dt") or "float64")
         for k, idx in enumerate(np.ndindex(*shape)):
-            data[idx] = src_value(ins["base"] + k, ins["ishape"], seed)
+            data[idx] = src_value(ins["base"] + k, ins["ishape"], seed, *src_opts(ins))
         return Ref(dims, {d: list(c) for d, c in ins["dims"]}, {}, data)
     a = env[ins["a"]]
     if op == "map":
@@ -293,6 +399,8 @@ def ref_step0(env, ins, seed, kind):
             raise Invalid()
         if 1 < bs < n and (len(set(map(repr, a.coords[dd]))) != n or not all(a.indexed.values())):
             raise Invalid()
+        if 1 < bs < n and any(str(x).startswith("batch.") for x in list(a.scal) + list(a.dims)):
+            raise Invalid()          # left behind by ONE hand-made round (op bround): the loop's own names batch.<level>.<dim> would clash
         return ref_reduce(a, fname, kw if fname in USER or fname in ("stack", "concat") else {}, dd, ins.get("keep", False))
     if op == "expand":
         name, axis = ins["name"], ins["axis"]
@@ -481,7 +589,10 @@ def ref_step0(env, ins, seed, kind):
         coords = {x: a.coords[x] for x in rest}
         if len(outs) == 1:
             return Ref(rest, coords, {**a.scal, name: 0}, outs[0])
-        return Ref([name] + rest, {**coords, name: list(range(len(outs)))}, a.scal, np.stack(outs, axis=0))
+        res = Ref([name] + rest, {**coords, name: list(range(len(outs)))}, a.scal, np.stack(outs, axis=0))
+        # one round of batching passes a batch of ONE through as it is: beside accumulated results it keeps its element type
+        res.mixed = len({np.asarray(o).dtype for o in outs}) > 1
+        return res
     if op == "transform":
         params, name, vals, axis = ins["params"], ins["name"], ins.get("vals"), ins["axis"]
         if not params or (vals is not None and len(vals) < len(params)):
@@ -590,7 +701,7 @@ def impl_step(env, ins, seed, kind, reg, shared=None):
         shape = [len(c) for _, c in ins["dims"]]
         arr = np.empty(tuple(shape), dtype=object)
         for k, idx in enumerate(np.ndindex(*shape)):
-            arr[idx] = make_src(ins["base"] + k, ins["ishape"], seed, kind)
+            arr[idx] = make_src(ins["base"] + k, ins["ishape"], seed, kind, *src_opts(ins))
         return fluent.from_source(arr, dims=[d for d, _ in ins["dims"]], coords={d: list(c) for d, c in ins["dims"]})
     a = env[ins["a"]]
     red = dict(dim=ins.get("d", ""), batch_size=ins.get("bs", 0), keep_dim=ins.get("keep", False))
@@ -737,6 +848,14 @@ def canon(v, reg):
     raise ValueError(f"value outside the modelled domain: {v!r}")
 
 
+def canon_static(v, reg):
+    """a static operand of a payload: a Python float stays a float (x ** 2.0 is computed in floating point, x ** 2 in
+    the element type of x), everything else as canon"""
+    if isinstance(v, (float, np.floating)) and float(v).is_integer() and not isinstance(v, bool):
+        return ("float", int(v))
+    return canon(v, reg)
+
+
 def evaluate(node, memo):
     """reference interpreter for one node of Action.graph()"""
     key = id(node)
@@ -750,7 +869,14 @@ def evaluate(node, memo):
             vals.append(evaluate(src.parent, memo))
         else:
             vals.append(x)
+    # a node's value is kept by the executor and handed to every consumer: a payload function must not write into it
+    snap = [(i, np.array(getattr(v, "values", v), copy=True)) for i, v in enumerate(vals) if hasattr(v, "shape") and hasattr(v, "dtype")]
     out = func(*vals, **kwargs)
+    for i, before in snap:
+        now = np.asarray(getattr(vals[i], "values", vals[i]))
+        if now.shape != before.shape or now.dtype != before.dtype or not np.array_equal(now, before, equal_nan=now.dtype.kind in "fc"):
+            memo.setdefault("__mutated__", []).append(f"{getattr(func, '__name__', func)!s} changed its argument {i} in place "
+                                                      f"({before.reshape(-1)[:6].tolist()} -> {now.reshape(-1)[:6].tolist()})")
     memo[key] = out
     return out
 
@@ -781,7 +907,7 @@ def observe(act, reg, table=True):
                 raise ValueError(f"payload args are not inputs-then-statics: {args!r}")
             ins = [visit(n.inputs[nm].parent) for nm in names]
             ent = ("node", getattr(func, "__name__", ""), bool(getattr(func, "batchable", False)), ins,
-                   [canon(x, reg) for x in args[nin:]], [(str(k), canon(v, reg)) for k, v in kwargs.items()])
+                   [canon_static(x, reg) for x in args[nin:]], [(str(k), canon(v, reg)) for k, v in kwargs.items()])
         table.append(ent)
         ids[id(n)] = len(table) - 1
         return ids[id(n)]
@@ -815,7 +941,34 @@ def close(got, exp):
     return bool(np.all(ok))
 
 
-def check_entry(act, r, obs, reg, memo):
+def same_dtype(a, b):
+    a, b = np.dtype(a), np.dtype(b)
+    return a.kind == b.kind and a.itemsize == b.itemsize
+
+
+def close_typed(got, exp, scale):
+    """sources with a declared element type: integers and booleans must be the SAME numbers (no tolerance: a sum that
+    wrapped around, a count that collapsed to a mask); floating-point results within the rounding of their own precision,
+    relative to the result and to the largest magnitude met on the way (cancellation in E[x^2] - E[x]^2)"""
+    got = np.asarray(getattr(got, "values", got))
+    exp = np.asarray(exp)
+    if got.shape != exp.shape:
+        return False
+    if got.dtype.kind in "biu" and exp.dtype.kind in "biu":
+        return bool(np.array_equal(got, exp))
+    single = any(np.dtype(d).kind == "f" and np.dtype(d).itemsize <= 4 for d in (got.dtype, exp.dtype))
+    rtol, arel = (1e-4, 2e-3) if single else (1e-9, 1e-7)
+    atol = arel * max(scale, 10.0)
+    with np.errstate(all="ignore"):
+        g = got.astype(float)
+        e = exp.astype(float)
+        ok = np.isclose(g, e, rtol=rtol, atol=atol, equal_nan=True)
+        # the root of a variance that rounding left just below zero
+        ok |= (np.abs(e) <= atol) & np.isnan(g)
+    return bool(np.all(ok))
+
+
+def check_entry(act, r, obs, reg, memo, values=True):
     """the property read directly on ONE result: dimensions, coordinates, scalar coordinates, value at every coordinate"""
     if [d[0] for d in obs["dims"]] != r.dims:
         return ("dims", f"dimensions {[d[0] for d in obs['dims']]} != documented {r.dims}")
@@ -829,15 +982,27 @@ def check_entry(act, r, obs, reg, memo):
         return ("graph", f"Action.graph() lacks the nodes of cells {obs['graph_missing'][:5]}")
     flat = act.nodes.data.flatten()
     shape = act.nodes.shape
+    if not values:
+        return None
     for pos, idx in enumerate(np.ndindex(*shape)):
         try:
             got = evaluate(flat[pos], memo)
         except Exception as e:
             return ("eval-raises", f"evaluating the node at {idx} raised {e!r}"[:300])
         exp = r.data[idx]
-        if not close(got, exp):
+        if not (close_typed(got, exp, r.scale) if r.typed else close(got, exp)):
             labels = {d: r.coords[d][i] for d, i in zip(r.dims, idx)}
-            return ("value", f"value at {labels} is {np.asarray(getattr(got, 'values', got)).tolist()!r}, NumPy gives {exp.tolist()!r}"[:400])
+            gv = np.asarray(getattr(got, 'values', got))
+            what = f"value at {labels} is {gv.tolist()!r}, NumPy gives {exp.tolist()!r}"[:400]
+            if r.typed:
+                what += f" (element type {gv.dtype}, NumPy's {np.asarray(exp).dtype})"
+            return ("value", what)
+        if r.typed and not r.mixed:
+            gd = np.asarray(getattr(got, 'values', got)).dtype
+            if not same_dtype(gd, r.data.dtype):
+                labels = {d: r.coords[d][i] for d, i in zip(r.dims, idx)}
+                return ("dtype", f"element type of the value at {labels} is {gd}, NumPy's result has {r.data.dtype} (equal numbers so far: the next "
+                                 f"operation computes in the wrong type)")
     return None
 
 
@@ -882,13 +1047,15 @@ def run_case(case):
         if every and prog[j]["op"] != "source":
             all_obs.append((j, obs))
         if j < n and out["fail"] is None:
-            f = check_entry(env[j], refs[j], obs, reg, memo)
+            f = check_entry(env[j], refs[j], obs, reg, memo, values=not case.get("coqonly"))
             if f is not None:
                 out["fail"] = (f[0], f[1] + (f" [result {j} of {len(prog)}: {prog[j]['op']}]" if not last else ""), j)
+    if out["fail"] is None and memo.get("__mutated__"):
+        out["fail"] = ("mutates-input", "evaluating the graph overwrote a value another node (or the caller) still holds: " + memo["__mutated__"][0], len(env) - 1)
     if every and err is None:
         out["all_obs"] = all_obs
     if case.get("sem") and err is None:
-        out["values"] = exact_values(env[-1], memo)
+        out["values"] = typed_values(env[-1], memo) if case.get("semt") else exact_values(env[-1], memo)
     return out
 
 
@@ -906,6 +1073,43 @@ def exact_values(act, memo):
     return ("ok", vals)
 
 
+COQ_DT = {"bool": "BD.DBool", "int8": "BD.DI8", "int16": "BD.DI16", "int32": "BD.DI32", "int64": "BD.DI64", "uint8": "BD.DU8",
+          "uint16": "BD.DU16", "uint32": "BD.DU32", "uint64": "BD.DU64", "float32": "BD.DF32", "float64": "BD.DF64"}
+
+
+def typed_values(act, memo):
+    """("ok", [(dtype name, shape, [(num, den)])] per cell, exact) | ("raises", cell number, exception class) | ("inexact",)
+    exact: no value met while evaluating the graph can have been rounded (integers / booleans, or floating-point
+    arrays of small integers): the model then has to decide every cell"""
+    vals = []
+    for pos, node in enumerate(act.nodes.data.flatten()):
+        try:
+            v = np.asarray(evaluate(node, memo))
+        except Exception as e:
+            return ("raises", pos, type(e).__name__)
+        if v.dtype.name not in COQ_DT:
+            return ("inexact",)
+        if v.dtype.kind == "f":
+            if not np.all(np.isfinite(v)):
+                return ("inexact",)
+            flat = [float(x).as_integer_ratio() for x in v.astype(np.float64).reshape(-1).tolist()]
+        else:
+            flat = [(int(x), 1) for x in v.reshape(-1).tolist()]
+        vals.append((v.dtype.name, list(v.shape), flat))
+    exact = True
+    for key, v in memo.items():
+        if key == "__mutated__":
+            continue
+        v = np.asarray(getattr(v, "values", v))
+        if v.dtype.kind == "f":
+            lim = 2.0 ** (22 if v.dtype.itemsize <= 4 else 50)
+            if not (np.all(np.isfinite(v)) and np.all(v == np.round(v)) and np.all(np.abs(v) < lim)):
+                exact = False
+        elif v.dtype.kind not in "biu":
+            exact = False
+    return ("ok", vals, exact)
+
+
 # ----------------------------------------------------------------------------- Coq terms
 def ccv(v):
     if isinstance(v, tuple):
@@ -913,6 +1117,8 @@ def ccv(v):
             return f"(CKept {ccv(v[1])} {ccv(v[2])})"
         if v[0] == "half":
             return "CHalf"
+        if v[0] == "float":
+            return f"(CF {cZ(v[1])})"
     if isinstance(v, bool):
         return f"(CZ {cZ(int(v))})"
     if isinstance(v, int):
@@ -1019,6 +1225,30 @@ def csources(case):
     return clist(out)
 
 
+def csources_t(case):
+    """the source arrays with their element types (source number = position)"""
+    out = {}
+    for i in case["prog"]:
+        if i["op"] == "source":
+            n = int(np.prod([len(c) for _, c in i["dims"]]))
+            for k in range(i["base"], i["base"] + n):
+                v = src_value(k, i["ishape"], case["seed"], *src_opts(i))
+                out[k] = f"tsrc {COQ_DT[v.dtype.name]} {clist([cnat(x) for x in v.shape])} {clist([cZ(int(x)) for x in v.reshape(-1).tolist()])}"
+    return clist([out[k] for k in range(len(out))])
+
+
+def cvalcase_t(case, values):
+    """CValT: program, typed source arrays, element type + shape + exact values of every cell the real graph gave"""
+    prog = clist([cinstr(i) for i in case["prog"]])
+    if values[0] == "raises":
+        exp, exact = f"inr ({cnat(values[1])}, {cstr(values[2])})", True
+    else:
+        exp = "inl " + clist([f"({COQ_DT[dt]}, {clist([cnat(x) for x in sh])}, {clist([f'({cZ(n)}, {d}%positive)' for n, d in flat])})"
+                              for dt, sh, flat in values[1]])
+        exact = values[2]
+    return f"CValT ({prog}, {csources_t(case)}, {exp}, {cbool(exact)})"
+
+
 def cvalcase(case, values):
     """CVal: program, source arrays, the values the real graph gave (or the first cell that raised and its exception class)"""
     prog = clist([cinstr(i) for i in case["prog"]])
@@ -1063,6 +1293,14 @@ class Gen:
         self.made_bad = False
         self.session = False      # several calls of the same methods on the same objects, every result checked
         self.sem = False          # only operations whose VALUE the Coq model computes (backends on exact integers)
+        self.dt = self.vr = self.lay = None      # element type / value regime / memory layout of the sources (None: first generation)
+        self.dt2 = None           # element type of second operands (typed value stream only)
+
+    def typed(self, dt, vr=None, lay=None):
+        self.dt = dt
+        self.vr = vr or self.rng.choice(regimes_of(dt))
+        self.lay = lay or self.rng.choice(LAYOUTS)
+        return self
 
     def dress(self, ins):
         """how the call is written: arguments left to their defaults, options objects fresh / shared / left out"""
@@ -1092,6 +1330,8 @@ class Gen:
         cands = [j for j, i in enumerate(self.prog) if i["op"] in KWOPS + ("select", "iselect", "map", "reduce") and i.get("a") != cur]
         if not cands:
             return False
+        if getattr(self.refs[cur], "noderive", False):
+            return False
         j = rng.choice(cands)
         old = self.prog[j]
         ins = {k: (list(v) if isinstance(v, list) else dict(v) if isinstance(v, dict) else v) for k, v in old.items()}
@@ -1116,6 +1356,12 @@ class Gen:
             self.prog.append(ins)
             self.bad_done = True
             return True
+        if r.typed and ins["op"] == "std" and 1 < ins.get("bs", 0) < self.refs[ins["a"]].size(ins["d"] or self.refs[ins["a"]].dims[0]):
+            # sqrt(E[x^2] - E[x]^2) may round to the root of a negative number where the deviation is (nearly) zero: the NaN
+            # is accepted there, what is computed FROM it is not comparable any more
+            r.noderive = True
+        if r.mixed:
+            r.noderive = True          # "the same operation on the stacked arrays" would compute every cell in the common type
         self.prog.append(ins)
         self.refs.append(r)
         self.tsz.append(tsz)
@@ -1131,6 +1377,10 @@ class Gen:
                 size = rng.choice([2, 2, 3, 3, 4, 5, 6, 7] if nd == 1 else [2, 2, 3, 3, 4, 5] if nd == 2 else [2, 2, 2, 3, 4])
                 dims.append([n, gen_coords(rng, size)])
         ins = {"op": "source", "dims": dims, "base": self.nsrc, "ishape": self.ishape}
+        if self.dt is not None:
+            ins.update(dt=self.dt, vr=self.vr, lay=self.lay)
+            if self.dt2 is not None and self.prog and self.rng.random() < 0.7:
+                ins.update(dt=self.dt2, vr=self.rng.choice(regimes_of(self.dt2)))
         self.nsrc += int(np.prod([len(c) for _, c in dims]))
         self.push(ins, 1)
         return len(self.refs) - 1
@@ -1153,6 +1403,9 @@ class Gen:
                     "stack", "stack", "concat", "flatten", "expand", "expand", "expand"]
         ops = ["map", "named", "named", "reduce", "mean", "std", "select", "iselect", "binC", "binA", "join", "broadcast", "transform", "bround"]
         ops += ["stack", "concat", "flatten", "expand", "expand"]
+        if self.dt is not None:
+            # where the element type decides the result: accumulating reductions, their batched rewrites, arithmetic
+            ops += ["named", "named", "named", "mean", "std", "bround", "reduce", "binA", "binC"]
         return ops
 
     def same_payload_layout(self, r):
@@ -1167,6 +1420,8 @@ class Gen:
             if cur > 0 and not self.malformed and rng.random() < 0.15:
                 cur = rng.randrange(cur + 1)      # an earlier result is used again (programs are DAGs, objects are reused)
         r = self.refs[cur]
+        if getattr(r, "noderive", False):
+            return False
         ts = self.tsz[cur]
         ncell = int(np.prod(r.data.shape[:r.nn])) if r.nn else 1
         bad = self.malformed and not self.bad_done and rng.random() < 0.4
@@ -1194,6 +1449,12 @@ class Gen:
                     ins["bs"] = rng.choice([0, 1, n, n + 1])
             elif op in ("mean", "std"):
                 ins["kw"] = self.kw_for(op)
+                if self.dt is not None and 1 < ins["bs"] < n and not bad:
+                    big = max(r.scale, 1.0)
+                    # the rewrite through sums is exact only while the sums (of squares) are: beyond that the comparison
+                    # with np.mean / np.std would measure floating-point cancellation (or the wrap-around of a 64-bit sum)
+                    if (op == "std" and big * big * n >= 2 ** (24 if self.dt == "float32" else 53)) or (op == "mean" and big >= 2 ** 60):
+                        ins["bs"] = rng.choice([0, 1, n, n + 1])
             elif op in ("stack", "flatten"):
                 # every position np.stack accepts: -(ni+1) .. ni, from the front and from the back
                 ni = len(r.ishape)
@@ -1246,6 +1507,8 @@ class Gen:
             return self.push(ins, ts + 1)
         if op == "binC":
             f = rng.choice(["add", "subtract", "multiply", "divide", "pow"] if not self.sem else ["add", "subtract", "multiply", "pow"])
+            if f == "pow" and r.data.dtype.kind == "b":
+                f = "multiply"          # True ** 2 is int8 for an array and int64 for a 0-d array (NumPy's fast path for squares): no common reading
             c = rng.choice([2, 3, 4]) if f != "pow" else 2
             if f == "divide":
                 c = rng.choice([2, 4])
@@ -1355,6 +1618,10 @@ class Gen:
         if op == "join":
             if any(isinstance(l, tuple) for c in r.coords.values() for l in c) or not all(r.indexed.values()) or not self.same_payload_layout(r):
                 return False
+            if self.dt is not None and self.dt2 is None and r.data.dtype != np.dtype(self.dt):
+                # the joined array would hold cells of two element types; "the stacked source arrays" have ONE (the common
+                # type), so that later arithmetic would wrap in some cells and not in the reference
+                return False
             if r.dims and rng.random() < 0.5:
                 d = rng.choice(r.dims)          # along an existing dimension: new labels
                 m = rng.choice([1, 2, 3])
@@ -1431,6 +1698,8 @@ def gen_case(rng, seed, malformed=False, depth=None, sem=False):
     g.sem = sem
     if sem:
         g.ishape = list(rng.choice([s for s in ISHAPES if s]))
+    elif rng.random() < 0.5:
+        g.typed(rng.choice(DT_WEIGHTED))
     g.source()
     grow(g, depth or rng.choice([1, 2, 2, 3, 3, 4, 5]))
     return finish(g)
@@ -1449,6 +1718,8 @@ def gen_session(rng, seed, kind=None):
     g.session = True
     if kind == "numpy":
         g.ishape = list(rng.choice([s for s in ISHAPES if len(s) >= 1]))
+    if rng.random() < 0.5:
+        g.typed(rng.choice(DT_WEIGHTED))
     names = rng.sample(DIMNAMES, rng.choice([2, 2, 3]))
     g.source([[n, gen_coords(rng, rng.choice([2, 2, 3, 4]))] for n in names])
     fam = rng.choice(SESSION_FAMILIES[kind])
@@ -1471,8 +1742,8 @@ def pair_sessions(seed):
     out = []
     dims = [["x", [10, 11]], ["y", ["a", "b", "c"]]]
 
-    def case(ishape, calls):
-        prog = [{"op": "source", "dims": dims, "base": 0, "ishape": list(ishape)}]
+    def case(ishape, calls, **typed):
+        prog = [{"op": "source", "dims": dims, "base": 0, "ishape": list(ishape), **typed}]
         for c in calls:
             prog.append({"a": 0, "omit": True, "kwm": "default", **c})
         out.append({"seed": seed, "kind": "numpy", "prog": prog, "session": True, "pair": True})
@@ -1495,6 +1766,11 @@ def pair_sessions(seed):
             for d1, d2, k1, k2 in (("x", "y", False, True), ("y", "x", True, False), ("", "y", False, False)):
                 o = "named" if n1 in NAMED else n1
                 case(ishape, [{"op": o, "n": n1, "d": d1, "bs": 0, "keep": k1}, {"op": o, "n": n1, "d": d2, "bs": 2, "keep": k2}])
+                if len(ishape) == 1:
+                    # the same two calls over masks and over narrow integers close to the end of their range
+                    for dt, vr in (("bool", "small"), ("int8", "edge"), ("uint8", "edge"), ("int32", "edge"), ("float32", "small")):
+                        case(ishape, [{"op": o, "n": n1, "d": d1, "bs": 0, "keep": k1}, {"op": o, "n": n1, "d": d2, "bs": 2, "keep": k2}],
+                             dt=dt, vr=vr, lay="c")
         case(ishape, [{"op": "concat", "d": "x", "bs": 0, "keep": False}, {"op": "concat", "d": "y", "bs": 2, "keep": True}])
     # ONE options object written once and used for two calls on different operands (a script's `opts = {...}`):
     # selection criteria (one key names a scalar coordinate of the first operand, a dimension of the second),
@@ -1546,6 +1822,51 @@ def sweep_cases(seed):
                             ins.update(op="reduce", f=fam)
                         out.append({"seed": seed, "kind": "numpy", "prog": [{"op": "source", "dims": dims, "base": 0, "ishape": [2]}, ins],
                                     "sweep": True})
+    return out
+
+
+def long_sweep_cases(seed):
+    """reduced dimensions of 8..27 nodes: three and more rounds of batching, rounds whose size is no multiple of the
+    batch size, a last batch of one in a LATER round"""
+    out = []
+    for n in range(8, 28):
+        dims = [["x", [10 + 3 * j for j in range(n)]]]
+        for fam in ("sum", "prod", "max", "concat", "mean", "std", "r_bsum"):
+            for bs in (2, 3, 4, 5):
+                ins = {"a": 0, "d": "x", "bs": bs, "keep": False}
+                if fam in NAMED:
+                    ins.update(op="named", n=fam)
+                elif fam in ("mean", "std", "concat"):
+                    ins.update(op=fam)
+                else:
+                    ins.update(op="reduce", f=fam)
+                out.append({"seed": seed, "kind": "numpy", "prog": [{"op": "source", "dims": dims, "base": 0, "ishape": [2]}, ins],
+                            "sweep": True, "long": True})
+    return out
+
+
+SWEEP_TYPES = [("bool", "small"), ("int8", "edge"), ("uint8", "edge"), ("int16", "edge"), ("int32", "edge"), ("uint32", "edge"),
+               ("int64", "small"), ("uint16", "mid"), ("int8", "mid"), ("float32", "small"), ("int8", "signed"), ("uint64", "small"),
+               ("float32", "edge"), ("int16", "mid"), ("float64", "signed")]
+
+
+def typed_sweep(cases, rng, share):
+    """the batching sweep over source arrays of every element type: `share` of the cases (all of them in turn when
+    share >= 1) get an element type and a value regime; the batch sizes, reductions and sizes stay those of the sweep"""
+    out = []
+    for j, c in enumerate(cases):
+        if share < 1 and rng.random() >= share:
+            out.append(c)
+            continue
+        dt, vr = SWEEP_TYPES[rng.randrange(len(SWEEP_TYPES))]
+        src, ins = dict(c["prog"][0]), dict(c["prog"][1])
+        n = max(len(co) for _, co in src["dims"])
+        lo, hi = value_range(dt, vr)
+        big = max(abs(lo), abs(hi))
+        if ins["op"] == "std" and 1 < ins["bs"] < n and big * big * n >= 2 ** (24 if dt == "float32" else 53):
+            vr = "small"
+        src.update(dt=dt, vr=vr, lay=LAYOUTS[rng.randrange(len(LAYOUTS))])
+        out.append({**c, "prog": [src, ins]})
     return out
 
 
@@ -1628,8 +1949,8 @@ def run_cases(ctx, res, cases, tag, check_corr=True, sink=None):
                     if v[0] == "inexact":
                         res.count(f"{tag}:values-not-exact-integers(structure-only)")
                     else:
-                        sink.append((cvalcase(case, v), case, out, "values"))
-                        res.count(f"{tag}:values-compared-in-coq:{v[0]}")
+                        sink.append(((cvalcase_t if case.get("semt") else cvalcase)(case, v), case, out, "values"))
+                        res.count(f"{tag}:values-compared-in-coq:{v[0]}" + (":model-must-decide" if case.get("semt") and v[0] == "ok" and v[2] else ""))
             except ValueError as e:
                 res.disagree(f"harness cannot express the case in Coq: {e}"[:300], case)
     if own:
@@ -1656,7 +1977,7 @@ def flush_coq(ctx, res, sink, tag="all"):
                     prog = clist([cinstr(i) for i in case["prog"]])
                     if what_kind == "values":
                         v = out["values"]
-                        m = coq_print("C13", HEADER, f"model_values {prog} {csources(case)}")
+                        m = coq_print("C13", HEADER, f"model_values_t {prog} {csources_t(case)}" if case.get("semt") else f"model_values {prog} {csources(case)}")
                         what += f": implementation {('raised ' + v[2] + ' at cell ' + str(v[1])) if v[0] == 'raises' else 'gave ' + str(v[1])[:200]}, model says {' '.join(m.split())[-300:]}"
                     else:
                         m = coq_print("C13", HEADER, f"model_error {prog}")
@@ -1673,12 +1994,34 @@ def gen_sem(rng, seed, malformed=False):
     return case
 
 
+def gen_semt(rng, seed, malformed=False):
+    """programs of backend functions over sources WITH an element type: the typed model (Fluent/ActionSemT.v) computes
+    element type and value of every cell, wrap-around included.  In a third of the cases a second operand comes
+    from sources of ANOTHER element type (join / arithmetic of unlike arrays): cell by cell the model still says what
+    NumPy computes, while "the stacked source arrays" have one common type -- there the NumPy oracle only looks at
+    dimensions and coordinates (case["coqonly"])"""
+    g = Gen(rng, seed, "numpy", malformed)
+    g.sem = True
+    g.ishape = list(rng.choice([s for s in ISHAPES if s]))
+    g.typed(rng.choice(DT_WEIGHTED))
+    if rng.random() < 0.33:
+        g.dt2 = rng.choice([d for d in DTYPES if d != g.dt])
+    g.source()
+    grow(g, rng.choice([1, 2, 2, 3, 3, 4]))
+    case = finish(g, sem=True, semt=True)
+    if len({i.get("dt") for i in g.prog if i["op"] == "source"}) > 1:
+        case["coqonly"] = True
+    return case
+
+
 def run(ctx, res):
     res.rule = ("a case is one fluent program (SSA list of operations over from_source arrays, 1-3 dims, internal arrays of 0-3 dims; "
                 "in a session: several calls on the same objects, every result checked) "
                 "run on the real API, on the NumPy reference and inside Coq; distinct_nontrivial counts distinct programs with >= 2 operations "
                 "after the sources or a batch size > 1")
+    import time
     from common import load_corpus
+    t0 = time.time()
     corpus = [c.get("case") for _, c in load_corpus("C13") if isinstance(c.get("case"), dict) and "prog" in c.get("case", {})]
     if corpus:
         run_cases(ctx, res, corpus, "corpus", check_corr=False)
@@ -1694,6 +2037,10 @@ def run(ctx, res):
         multi = [c for c in sw if rounds2(c)]
         rest = [c for c in sw if not rounds2(c)]
         sw = rng.sample(multi, min(60, len(multi))) + rng.sample(rest, 160)
+        sw = typed_sweep(sw + rng.sample(long_sweep_cases(ctx.seed), 30), rng, 0.6)
+    else:
+        sw = sw + long_sweep_cases(ctx.seed)
+        sw = sw + typed_sweep(sw, rng, 1) + typed_sweep(sw, rng, 1)
     run_cases(ctx, res, sw, "sweep", sink=sink)
     rng = ctx.sub_rng("programs")
     progs = [gen_case(rng, ctx.seed * 1000 + i) for i in range(ctx.n(340, 9000))]
@@ -1711,9 +2058,15 @@ def run(ctx, res):
     run_cases(ctx, res, pairs, "pair", sink=sink)
     # values, not only wiring: programs of backend functions, evaluated inside Coq on the same integer arrays
     rng = ctx.sub_rng("sem")
-    sem = [gen_sem(rng, ctx.seed * 1000 + i, malformed=(i % 8 == 7)) for i in range(ctx.n(110, 1500))]
+    sem = [gen_sem(rng, ctx.seed * 1000 + i, malformed=(i % 8 == 7)) for i in range(ctx.n(90, 1500))]
     run_cases(ctx, res, sem, "sem", sink=sink)
+    # element types too: the typed model decides dtype and value (wrap-around, masks) of every cell
+    rng = ctx.sub_rng("semt")
+    semt = [gen_semt(rng, ctx.seed * 1000 + i, malformed=(i % 10 == 9)) for i in range(ctx.n(100, 1800))]
+    run_cases(ctx, res, semt, "semt", sink=sink)
+    t_py = time.time() - t0
     flush_coq(ctx, res, sink)
+    ctx.notes.append(f"timing: implementation + oracle {t_py:.1f} s, Coq correspondence ({len(sink)} cases) {time.time() - t0 - t_py:.1f} s")
     if LEAKS:
         ctx.notes.append("mutable default arguments changed by calls (reset before every case): " + ", ".join(f"{k} x{v}" for k, v in sorted(LEAKS.items())))
 
@@ -1723,7 +2076,10 @@ def search(ctx, res):
     from common import Result
     r2 = Result()
     ctx2 = type(ctx)(ctx.pid, "thorough", ctx.seed + 1)
-    run_cases(ctx2, r2, sweep_cases(ctx.seed + 1), "search-sweep", check_corr=False)
+    sw = sweep_cases(ctx.seed + 1) + long_sweep_cases(ctx.seed + 1)
+    run_cases(ctx2, r2, sw, "search-sweep", check_corr=False)
+    if not r2.failures:
+        run_cases(ctx2, r2, typed_sweep(sw, ctx2.sub_rng("search-sweep"), 1), "search-sweep-typed", check_corr=False)
     if not r2.failures:
         run_cases(ctx2, r2, pair_sessions(ctx.seed + 1), "search-pairs", check_corr=False)
     if not r2.failures:
